@@ -176,6 +176,15 @@ def main():
     c("YEAR_FLAGS_MASK", "src/naive/date/mod.rs", "YEAR_FLAGS_MASK", src=datemod)
     c("MAX_OL", "src/naive/internals.rs", "MAX_OL", src=internals)
     c("MAX_MDL", "src/naive/internals.rs", "MAX_MDL", src=internals)
+    def iso_consts():
+        m1 = re.search(r"fn nisoweeks\(&self\).*?52 \+ \(\((0b[01_]+) >> flags as usize\) & 1\)", internals, re.S)
+        m2 = re.search(r"fn isoweek_delta\(&self\).*?let mut delta = \(flags & (0b[01]+)\) as u32;\s*if delta < (\d+) \{\s*delta \+= (\d+);", internals, re.S)
+        m3 = re.search(r"fn ndays\(&self\).*?(\d+) - \(flags >> (\d+)\) as u32", internals, re.S)
+        return [ev(m1.group(1), {}), ev(m2.group(1), {}), int(m2.group(2)), int(m2.group(3)), int(m3.group(1)), int(m3.group(2))]
+    v = section(rep, "YearFlags::{nisoweeks, isoweek_delta, ndays} literals", "src/naive/internals.rs", iso_consts,
+                [consts.get(k) for k in ["NISOWEEKS_MASK", "ISOWEEK_DELTA_MASK", "ISOWEEK_DELTA_MIN", "ISOWEEK_DELTA_ADD", "NDAYS_BASE", "NDAYS_SHIFT"]])
+    (consts["NISOWEEKS_MASK"], consts["ISOWEEK_DELTA_MASK"], consts["ISOWEEK_DELTA_MIN"], consts["ISOWEEK_DELTA_ADD"],
+     consts["NDAYS_BASE"], consts["NDAYS_SHIFT"]) = v
     c("UNIX_EPOCH_DAY", "src/datetime/mod.rs", "UNIX_EPOCH_DAY")
     td = strip_comments(read("src/time_delta.rs"))
     for n in ["NANOS_PER_MICRO", "NANOS_PER_MILLI", "NANOS_PER_SEC", "MICROS_PER_SEC", "MILLIS_PER_SEC",
